@@ -18,8 +18,8 @@ CLAIMED = {
         note='Trusted: Cranelift instruction semantics as written in shims/verus/clif.rs; FINAL_TYS table read; float arithmetic uninterpreted; operands are assumed to carry the operand type; i128<->float only for values that fit 64 bits. Not covered: which type the checker picks for an operation, comptime evaluation path.',
         ref='DESIGN.md 5 (C08)'),
     'C09': dict(
-        text='Deductive proof that Ty::get_max_int_size accepts exactly the u64 literals that fit each integer type (all widths, distinct wrappers), and that finalize_int maps {int}/{uint} to i32. Partial: literal text parsing and the checker\'s call sites are outside the verifier\'s reach.',
-        note='Partial claim: only the range limit and the defaulting clause. lower_int_literal / escapes / float literals are not under contract; isize/usize are taken as 64-bit.',
+        text='Deductive proof that Ty::get_max_int_size accepts exactly the u64 literals that fit each integer type (all widths, distinct wrappers), and that finalize_int maps {int}/{uint} to i32. The checker\'s call sites (replace_weak_tys / expect_match) are outside the verifier\'s reach and get a BOUNDED stand-in on the real front end: 12 integer types x the boundary values of the quantifier x 11 (quick) / 16 (thorough) contexts in which a literal meets its type.',
+        note='Partial claim: the range limit (proved), the defaulting clause (proved) and the call-site clause (bounded, not a proof). lower_int_literal / escapes / float literals / the runtime value of an accepted literal are not under contract; isize/usize are taken as 64-bit.',
         ref='DESIGN.md 5 (C09)'),
     'C10': dict(
         text='Deductive proof over the real text of compile_unreachable, compile_unreachablez, the part of the Expr::Index arm of compile_expr_with_args after its operands are compiled, and the tagged branch of #unwrap (both lifted mechanically), plus Ty::{as_array,is_array,is_slice} and FinalTy::into_real_type: for every array/slice type, index type and index value, the emitted code compares the index -- read by its own signedness and widened to 64 bits -- unsigned with the length (the array type\'s length, or the first word of the slice value); everything after the comparison, including the element access at data + index*stride(element), is emitted in a block reached only when index < length; the other edge runs exactly puts(message); exit(1); trap and no store; the only reads before the check are the two words of the slice value. #unwrap on a tagged sum type compares the stored tag byte at the layout\'s discriminant offset with the requested variant\'s discriminant and reads the payload only behind that check.',
